@@ -178,7 +178,11 @@ func (w *Reconciler) syncJobTasks(
 	// NOTE(irvinlim): Avoid using List() which performs a complete linear search.
 	tasks := make([]jobtasks.Task, 0, len(rj.Status.Tasks))
 	for _, ref := range rj.Status.Tasks {
-		if task, err := taskMgr.Lister().Get(ref.Name); err == nil {
+		task, err := w.getTask(ctx, taskMgr, ref)
+		if err != nil {
+			return rj, errors.Wrapf(err, "cannot get task %v", ref.Name)
+		}
+		if task != nil {
 			tasks = append(tasks, task)
 		}
 	}
@@ -233,6 +237,32 @@ func (w *Reconciler) syncJobTasks(
 	trace.Step("Final update status for tasks done")
 
 	return rj, nil
+}
+
+// getTask returns the task for the given TaskRef from the cache, or nil if it
+// does not exist. The cache for tasks may lag behind the cache for Jobs, so a
+// task which is not yet known to be finished and is missing from the cache is
+// looked up from the apiserver before concluding that it no longer exists,
+// otherwise a task that was just created (or adopted) may be recorded as lost and
+// be replaced by another task while it is still alive.
+func (w *Reconciler) getTask(
+	ctx context.Context, taskMgr jobtasks.Executor, ref execution.TaskRef,
+) (jobtasks.Task, error) {
+	task, err := taskMgr.Lister().Get(ref.Name)
+	if err == nil {
+		return task, nil
+	}
+	if !kerrors.IsNotFound(err) || !ref.FinishTimestamp.IsZero() {
+		return nil, nil
+	}
+	task, err = taskMgr.Client().Get(ctx, ref.Name)
+	if kerrors.IsNotFound(err) {
+		return nil, nil
+	}
+	if err != nil {
+		return nil, err
+	}
+	return task, nil
 }
 
 // updateTaskRefStatus will update the CreatedTask fields in the Job's status from a list of tasks.
@@ -829,14 +859,13 @@ func (w *Reconciler) handleFinishFinalizer(
 	// Use CreatedTaskRefs as they are guaranteed to contain all tasks that have been created by this Job.
 	tasks := make([]jobtasks.Task, 0, len(rj.Status.Tasks))
 	for _, taskRef := range rj.Status.Tasks {
-		task, err := taskMgr.Lister().Get(taskRef.Name)
-		if kerrors.IsNotFound(err) {
-			continue
-		} else if err != nil {
+		task, err := w.getTask(ctx, taskMgr, taskRef)
+		if err != nil {
 			return rj, errors.Wrapf(err, "cannot get task %v", taskRef.Name)
 		}
-
-		tasks = append(tasks, task)
+		if task != nil {
+			tasks = append(tasks, task)
+		}
 	}
 
 	// There are some tasks that are still not deleted, so we need to delete them.
